@@ -7,8 +7,11 @@ measures[i] = exact natural measure of cell i (volume / area / length)."""
 
 from __future__ import annotations
 
+import math
+
 import numpy as np
 import shapely
+import shapely.affinity
 import shapely.geometry as sg
 
 from vf import regoracle as ro
@@ -197,6 +200,102 @@ def prism_surface_partition(o, k=3, nbins=8):
     return assign, meas
 
 
+# -- vertical extrusions (upright boxes / prisms, footprints) ------------------------------------
+
+def vertical_operand(o):
+    """(G, z0, z1) if `o` is a vertical extrusion: G = horizontal cross-section in world
+    coordinates (shapely), [z0, z1] = vertical range (infinite for a footprint); else None."""
+    if isinstance(o, ro.Footprint):
+        return o.poly, -np.inf, np.inf
+    if isinstance(o, (ro.Box, ro.Prism)):
+        R = o.R
+        if abs(R[2, 2] - 1.0) > 1e-12 or abs(R[2, 0]) > 1e-12 or abs(R[2, 1]) > 1e-12:
+            return None
+        if isinstance(o, ro.Box):
+            g, hz = sg.box(-o.half[0], -o.half[1], o.half[0], o.half[1]), o.half[2]
+        else:
+            g, hz = o.poly, o.h / 2
+        G = shapely.affinity.affine_transform(
+            g, [R[0, 0], R[0, 1], R[1, 0], R[1, 1], o.pos[0], o.pos[1]])
+        return G, float(o.pos[2] - hz), float(o.pos[2] + hz)
+    return None
+
+
+def vertical_partition(op, oa, ob, k=2):
+    """op(A, B) for two vertical extrusions: the set is a stack of layers (between consecutive
+    z-bounds of the operands), each a 2D Boolean combination of the cross-sections times an
+    interval.  Cells = (sub-layer) x (k x k grid of the layer's cross-section)."""
+    va, vb = vertical_operand(oa), vertical_operand(ob)
+    if va is None or vb is None:
+        raise Unsupported("not vertical")
+    (Ga, a0, a1), (Gb, b0, b1) = va, vb
+    if (op == "union" and not np.isfinite([a0, a1, b0, b1]).all()) or \
+            (op == "difference" and not np.isfinite([a0, a1]).all()):
+        raise Unsupported("unbounded")
+    zs = sorted({z for z in (a0, a1, b0, b1) if np.isfinite(z)})
+    layers = []
+    for lo, hi in zip(zs, zs[1:]):
+        mid = (lo + hi) / 2
+        inA, inB = a0 < mid < a1, b0 < mid < b1
+        if op == "intersect":
+            G = Ga.intersection(Gb) if inA and inB else None
+        elif op == "union":
+            G = Ga.union(Gb) if inA and inB else Ga if inA else Gb if inB else None
+        else:
+            G = Ga.difference(Gb) if inA and inB else Ga if inA else None
+        if G is None or G.is_empty or G.area <= 0 or hi - lo <= 0:
+            continue
+        layers.append((lo, hi, G))
+    if not layers:
+        raise Unsupported("empty")
+    sub = 4 if len(layers) == 1 else 2
+    parts, meas = [], []
+    for lo, hi, G in layers:
+        a2, m2 = grid_partition_2d(G, k)
+        dz = (hi - lo) / sub
+        for j in range(sub):
+            parts.append((lo + j * dz, lo + (j + 1) * dz, a2, len(meas) * k * k))
+            meas.append(m2 * dz)
+    meas = np.concatenate(meas)
+
+    def assign(X):
+        idx = np.full(len(X), -1)
+        for lo, hi, a2, base in parts:
+            sel = (X[:, 2] >= lo) & (X[:, 2] < hi) & (idx < 0)
+            if sel.any():
+                idx[sel] = base + a2(X[sel, :2])
+        # samples exactly on the topmost face
+        top = (idx < 0) & (X[:, 2] == parts[-1][1])
+        if top.any():
+            idx[top] = parts[-1][3] + parts[-1][2](X[top, :2])
+        return idx
+
+    return assign, meas
+
+
+def path_footprint_pieces(line, fp, inside):
+    """Sub-segments (A, B) of the 3D segments of `line` whose horizontal projection lies
+    inside (inside=True) / outside the footprint polygon."""
+    A, B = [], []
+    for a, b in zip(line.A, line.B):
+        d2 = b[:2] - a[:2]
+        L2 = float(np.hypot(*d2))
+        if L2 < 1e-12:
+            if bool(shapely.contains_xy(fp.poly, a[0], a[1])) == inside:
+                A.append(a)
+                B.append(b)
+            continue
+        ls = sg.LineString([tuple(a[:2]), tuple(b[:2])])
+        g = ls.intersection(fp.poly) if inside else ls.difference(fp.poly)
+        P, Q = line_pieces(g)
+        for p, q in zip(P, Q):
+            tp = float(np.dot(p[:2] - a[:2], d2)) / L2 ** 2
+            tq = float(np.dot(q[:2] - a[:2], d2)) / L2 ** 2
+            A.append(a + tp * (b - a))
+            B.append(a + tq * (b - a))
+    return np.array(A, float).reshape(-1, 3), np.array(B, float).reshape(-1, 3)
+
+
 # -- entry points -------------------------------------------------------------------------------
 
 def primitive_partition(o):
@@ -269,6 +368,16 @@ def composed_partition(op, oa, ob):
         if not A:
             raise Unsupported("empty")
         return segment_partition(np.array(A), np.array(B))
+    fa, fb = isinstance(oa, ro.Footprint), isinstance(ob, ro.Footprint)
+    if (isinstance(oa, ro.Segments) and oa.kind == "Path" and fb and op in ("intersect", "difference")) \
+            or (fa and isinstance(ob, ro.Segments) and ob.kind == "Path" and op == "intersect"):
+        line, fp = (oa, ob) if fb else (ob, oa)
+        A, B = path_footprint_pieces(line, fp, inside=(op == "intersect"))
+        if len(A) == 0:
+            raise Unsupported("empty")
+        return segment_partition(A, B)
+    if vertical_operand(oa) is not None and vertical_operand(ob) is not None:
+        return vertical_partition(op, oa, ob)
     raise Unsupported(f"{op}:{oa.kind}x{ob.kind}")
 
 
@@ -306,4 +415,28 @@ def selftest():
     pl = ro.Segments([[(-1, 2), (9, 2)]], kind="Polyline")
     a, m = composed_partition("difference", pl, ro.Polygon(sg.Polygon([(0, 0), (4, 0), (4, 4), (0, 4)]), 0.0))
     req(abs(m.sum() - 6.0) < 1e-9, "polyline minus polygon")
+    # upright box 2x2x4 at z in [8, 12] and the footprint of the unit-offset square [1,3]x[-5,5]
+    ub = ro.Box((2, 2, 4), (1, 0, 10), (0.0, 0, 0))
+    fpr = ro.Footprint(sg.Polygon([(1, -5), (3, -5), (3, 5), (1, 5)]))
+    a, m = composed_partition("intersect", ub, fpr)
+    req(abs(m.sum() - 1 * 2 * 4) < 1e-9 and len(m) == 16, "box x footprint")
+    got = a(np.array([[1.2, -0.5, 8.5], [1.2, -0.5, 11.5], [1.7, 0.5, 11.5], [1.5, 0, 12.0], [1.5, 0, 13.0]]))
+    req(list(got) == [0, 12, 15, 15, -1], "box x footprint assign")
+    a, m = composed_partition("difference", ub, fpr)
+    req(abs(m.sum() - 8.0) < 1e-9, "box minus footprint")
+    ub2 = ro.Box((2, 2, 2), (1, 1, 12), (math.pi / 2, 0, 0))
+    for op, tot in (("intersect", 2.0), ("union", 16 + 8 - 2.0), ("difference", 14.0)):
+        a, m = vertical_partition(op, ub, ub2)
+        tot2 = convex3_partition(op, ub, ub2)[1].sum()
+        req(abs(m.sum() - tot) < 1e-9 and abs(tot2 - tot) < 1e-6, "upright boxes " + op)
+    try:
+        composed_partition("union", ub, fpr)
+        req(False, "unbounded union accepted")
+    except Unsupported:
+        pass
+    zz = ro.Segments([[(0, 0, 0), (4, 0, 3)], [(2, 1, 0), (2, 1, 7)], [(9, 9, 0), (9, 9, 1)]])
+    a, m = composed_partition("intersect", fpr, zz)
+    req(abs(m.sum() - (2.5 + 7.0)) < 1e-9, "path x footprint")
+    a, m = composed_partition("difference", zz, fpr)
+    req(abs(m.sum() - (2.5 + 1.0)) < 1e-9, "path minus footprint")
     return True
